@@ -10,7 +10,7 @@ Open Scope Z_scope.
 (* beanquery.compiler.Compiler.compile *)
 Definition compiler_compile : fdef :=
   {| f_params := ["self"; "query"; "parameters"];
-     f_body := [(SAssign (TSelf "parameters") (XName "parameters")); (SAssign (TName "placeholders") (XListComp (XName "node") "node" (XCallMethod (XName "query") "walk" []) (Some (XPrim "isinstance:beanquery.parser.ast.Placeholder" [(XName "node")])))); (SIf (XName "placeholders") [(SAssign (TName "names") (XPrim "builtins.set" [(XListComp (XAttr (XName "placeholder") "name") "placeholder" (XName "placeholders") None)])); (SIf (XPrim "builtins.all" [(XName "names")]) [(SIf (XNot (XPrim "isinstance:typing.Mapping" [(XName "parameters")])) [(SExpr (XPrim "raise" [(XConst (PV (VStr [98; 117; 105; 108; 116; 105; 110; 115; 46; 84; 121; 112; 101; 69; 114; 114; 111; 114]))); (XConst (PV (VStr [113; 117; 101; 114; 121; 32; 112; 97; 114; 97; 109; 101; 116; 101; 114; 115; 32; 115; 104; 111; 117; 108; 100; 32; 98; 101; 32; 97; 32; 109; 97; 112; 112; 105; 110; 103; 32; 119; 104; 101; 110; 32; 117; 115; 105; 110; 103; 32; 110; 97; 109; 101; 100; 32; 112; 108; 97; 99; 101; 104; 111; 108; 100; 101; 114; 115]))); (XConst (PV (VStr [113; 117; 101; 114; 121; 32; 112; 97; 114; 97; 109; 101; 116; 101; 114; 115; 32; 115; 104; 111; 117; 108; 100; 32; 98; 101; 32; 97; 32; 109; 97; 112; 112; 105; 110; 103; 32; 119; 104; 101; 110; 32; 117; 115; 105; 110; 103; 32; 110; 97; 109; 101; 100; 32; 112; 108; 97; 99; 101; 104; 111; 108; 100; 101; 114; 115])))]))] []); (SIf (XPrim "set.difference" [(XName "names"); (XCallMethod (XName "parameters") "keys" [])]) [(SAssign (TName "missing") (XCallMethod (XConst (PV (VStr [44; 32]))) "join" [(XPrim "builtins.sorted" [(XPrim "set.difference" [(XName "names"); (XCallMethod (XName "parameters") "keys" [])])])])); (SExpr (XPrim "raise" [(XConst (PV (VStr [98; 101; 97; 110; 113; 117; 101; 114; 121; 46; 80; 114; 111; 103; 114; 97; 109; 109; 105; 110; 103; 69; 114; 114; 111; 114]))); (XConst (PV (VStr [113; 117; 101; 114; 121; 32; 112; 97; 114; 97; 109; 101; 116; 101; 114; 32; 109; 105; 115; 115; 105; 110; 103; 58; 32]))); (XPrim "fstring" [(XConst (PV (VStr [113; 117; 101; 114; 121; 32; 112; 97; 114; 97; 109; 101; 116; 101; 114; 32; 109; 105; 115; 115; 105; 110; 103; 58; 32]))); (XName "missing")])]))] [])] [(SIf (XNot (XPrim "builtins.any" [(XName "names")])) [(SIf (XNot (XPrim "isinstance:typing.Sequence" [(XName "parameters")])) [(SExpr (XPrim "raise" [(XConst (PV (VStr [98; 117; 105; 108; 116; 105; 110; 115; 46; 84; 121; 112; 101; 69; 114; 114; 111; 114]))); (XConst (PV (VStr [113; 117; 101; 114; 121; 32; 112; 97; 114; 97; 109; 101; 116; 101; 114; 115; 32; 115; 104; 111; 117; 108; 100; 32; 98; 101; 32; 97; 32; 115; 101; 113; 117; 101; 110; 99; 101; 32; 119; 104; 101; 110; 32; 117; 115; 105; 110; 103; 32; 112; 111; 115; 105; 116; 105; 111; 110; 97; 108; 32; 112; 108; 97; 99; 101; 104; 111; 108; 100; 101; 114; 115]))); (XConst (PV (VStr [113; 117; 101; 114; 121; 32; 112; 97; 114; 97; 109; 101; 116; 101; 114; 115; 32; 115; 104; 111; 117; 108; 100; 32; 98; 101; 32; 97; 32; 115; 101; 113; 117; 101; 110; 99; 101; 32; 119; 104; 101; 110; 32; 117; 115; 105; 110; 103; 32; 112; 111; 115; 105; 116; 105; 111; 110; 97; 108; 32; 112; 108; 97; 99; 101; 104; 111; 108; 100; 101; 114; 115])))]))] []); (SIf (XCompare (XLen (XName "placeholders")) [(CNe, (XLen (XName "parameters")))]) [(SExpr (XPrim "raise" [(XConst (PV (VStr [98; 101; 97; 110; 113; 117; 101; 114; 121; 46; 80; 114; 111; 103; 114; 97; 109; 109; 105; 110; 103; 69; 114; 114; 111; 114]))); (XConst (PV (VStr [116; 104; 101; 32; 113; 117; 101; 114; 121; 32; 104; 97; 115; 32]))); (XPrim "fstring" [(XConst (PV (VStr [116; 104; 101; 32; 113; 117; 101; 114; 121; 32; 104; 97; 115; 32]))); (XLen (XName "placeholders")); (XConst (PV (VStr [32; 112; 108; 97; 99; 101; 104; 111; 108; 100; 101; 114; 115; 32; 98; 117; 116; 32]))); (XLen (XName "parameters")); (XConst (PV (VStr [32; 112; 97; 114; 97; 109; 101; 116; 101; 114; 115; 32; 119; 101; 114; 101; 32; 112; 97; 115; 115; 101; 100])))])]))] []); (SAssign (TSelf "positional") (XPrim "builtins.dict" [(XListComp (XTuple [(XPrim "builtins.id" [(XIndex (XName "$t") (XConst (PInt 1)))]); (XIndex (XName "$t") (XConst (PInt 0)))]) "$t" (XPrim "builtins.enumerate" [(XPrim "sorted_by" [(XName "placeholders"); (XListComp (XAttr (XAttr (XName "node") "parseinfo") "pos") "node" (XName "placeholders") None)])]) None)]))] [(SExpr (XPrim "raise" [(XConst (PV (VStr [98; 101; 97; 110; 113; 117; 101; 114; 121; 46; 80; 114; 111; 103; 114; 97; 109; 109; 105; 110; 103; 69; 114; 114; 111; 114]))); (XConst (PV (VStr [112; 111; 115; 105; 116; 105; 111; 110; 97; 108; 32; 97; 110; 100; 32; 110; 97; 109; 101; 100; 32; 112; 97; 114; 97; 109; 101; 116; 101; 114; 115; 32; 99; 97; 110; 110; 111; 116; 32; 98; 101; 32; 109; 105; 120; 101; 100]))); (XConst (PV (VStr [112; 111; 115; 105; 116; 105; 111; 110; 97; 108; 32; 97; 110; 100; 32; 110; 97; 109; 101; 100; 32; 112; 97; 114; 97; 109; 101; 116; 101; 114; 115; 32; 99; 97; 110; 110; 111; 116; 32; 98; 101; 32; 109; 105; 120; 101; 100])))]))])])] []); (SExpr (XCall (XConst (PRef 0)) [(XName "query")] None)); (SReturn (Some (XCall (XAttr (XName "self") "_compile") [(XName "query")] None)))];
+     f_body := [(SAssign (TSelf "parameters") (XName "parameters")); (SAssign (TName "placeholders") (XListComp (XName "node") "node" (XCallMethod (XName "query") "walk" []) (Some (XPrim "isinstance:beanquery.parser.ast.Placeholder" [(XName "node")])))); (SIf (XName "placeholders") [(SAssign (TName "names") (XPrim "builtins.set" [(XListComp (XAttr (XName "placeholder") "name") "placeholder" (XName "placeholders") None)])); (SIf (XPrim "builtins.all" [(XName "names")]) [(SIf (XNot (XPrim "isinstance:typing.Mapping" [(XName "parameters")])) [(SExpr (XPrim "raise" [(XConst (PV (VStr [98; 117; 105; 108; 116; 105; 110; 115; 46; 84; 121; 112; 101; 69; 114; 114; 111; 114]))); (XConst (PV (VStr [113; 117; 101; 114; 121; 32; 112; 97; 114; 97; 109; 101; 116; 101; 114; 115; 32; 115; 104; 111; 117; 108; 100; 32; 98; 101; 32; 97; 32; 109; 97; 112; 112; 105; 110; 103; 32; 119; 104; 101; 110; 32; 117; 115; 105; 110; 103; 32; 110; 97; 109; 101; 100; 32; 112; 108; 97; 99; 101; 104; 111; 108; 100; 101; 114; 115]))); (XConst PNone)]))] []); (SIf (XPrim "set.difference" [(XName "names"); (XCallMethod (XName "parameters") "keys" [])]) [(SAssign (TName "missing") (XCallMethod (XConst (PV (VStr [44; 32]))) "join" [(XPrim "builtins.sorted" [(XPrim "set.difference" [(XName "names"); (XCallMethod (XName "parameters") "keys" [])])])])); (SExpr (XPrim "raise" [(XConst (PV (VStr [98; 101; 97; 110; 113; 117; 101; 114; 121; 46; 80; 114; 111; 103; 114; 97; 109; 109; 105; 110; 103; 69; 114; 114; 111; 114]))); (XConst (PV (VStr [113; 117; 101; 114; 121; 32; 112; 97; 114; 97; 109; 101; 116; 101; 114; 32; 109; 105; 115; 115; 105; 110; 103; 58; 32]))); (XPrim "fstring" [(XConst (PV (VStr [113; 117; 101; 114; 121; 32; 112; 97; 114; 97; 109; 101; 116; 101; 114; 32; 109; 105; 115; 115; 105; 110; 103; 58; 32]))); (XName "missing")])]))] [])] [(SIf (XNot (XPrim "builtins.any" [(XName "names")])) [(SIf (XNot (XPrim "isinstance:typing.Sequence" [(XName "parameters")])) [(SExpr (XPrim "raise" [(XConst (PV (VStr [98; 117; 105; 108; 116; 105; 110; 115; 46; 84; 121; 112; 101; 69; 114; 114; 111; 114]))); (XConst (PV (VStr [113; 117; 101; 114; 121; 32; 112; 97; 114; 97; 109; 101; 116; 101; 114; 115; 32; 115; 104; 111; 117; 108; 100; 32; 98; 101; 32; 97; 32; 115; 101; 113; 117; 101; 110; 99; 101; 32; 119; 104; 101; 110; 32; 117; 115; 105; 110; 103; 32; 112; 111; 115; 105; 116; 105; 111; 110; 97; 108; 32; 112; 108; 97; 99; 101; 104; 111; 108; 100; 101; 114; 115]))); (XConst PNone)]))] []); (SIf (XCompare (XLen (XName "placeholders")) [(CNe, (XLen (XName "parameters")))]) [(SExpr (XPrim "raise" [(XConst (PV (VStr [98; 101; 97; 110; 113; 117; 101; 114; 121; 46; 80; 114; 111; 103; 114; 97; 109; 109; 105; 110; 103; 69; 114; 114; 111; 114]))); (XConst (PV (VStr [116; 104; 101; 32; 113; 117; 101; 114; 121; 32; 104; 97; 115; 32]))); (XPrim "fstring" [(XConst (PV (VStr [116; 104; 101; 32; 113; 117; 101; 114; 121; 32; 104; 97; 115; 32]))); (XLen (XName "placeholders")); (XConst (PV (VStr [32; 112; 108; 97; 99; 101; 104; 111; 108; 100; 101; 114; 115; 32; 98; 117; 116; 32]))); (XLen (XName "parameters")); (XConst (PV (VStr [32; 112; 97; 114; 97; 109; 101; 116; 101; 114; 115; 32; 119; 101; 114; 101; 32; 112; 97; 115; 115; 101; 100])))])]))] []); (SAssign (TSelf "positional") (XPrim "builtins.dict" [(XListComp (XTuple [(XPrim "builtins.id" [(XIndex (XName "$t") (XConst (PInt 1)))]); (XIndex (XName "$t") (XConst (PInt 0)))]) "$t" (XPrim "builtins.enumerate" [(XPrim "sorted_by" [(XName "placeholders"); (XListComp (XAttr (XAttr (XName "node") "parseinfo") "pos") "node" (XName "placeholders") None)])]) None)]))] [(SExpr (XPrim "raise" [(XConst (PV (VStr [98; 101; 97; 110; 113; 117; 101; 114; 121; 46; 80; 114; 111; 103; 114; 97; 109; 109; 105; 110; 103; 69; 114; 114; 111; 114]))); (XConst (PV (VStr [112; 111; 115; 105; 116; 105; 111; 110; 97; 108; 32; 97; 110; 100; 32; 110; 97; 109; 101; 100; 32; 112; 97; 114; 97; 109; 101; 116; 101; 114; 115; 32; 99; 97; 110; 110; 111; 116; 32; 98; 101; 32; 109; 105; 120; 101; 100]))); (XConst PNone)]))])])] []); (SExpr (XCall (XConst (PRef 0)) [(XName "query")] None)); (SReturn (Some (XCall (XAttr (XName "self") "_compile") [(XName "query")] None)))];
      f_gen := false |}.
 Definition compiler_compile_defaults : list expr := [(XConst PNone)].
 
